@@ -45,6 +45,8 @@ def level(t):
     k = t[0]
     if k == "PAREN":        # a redundant pair of parentheses around t[1] (C09); no node in the tree
         return L_ATOM
+    if k == "INTMIN":       # the literal -2147483648: one constant, spelled with a prefix minus
+        return L_UNARY
     if k in ("ID", "INT", "DBL", "BOOL", "CALL", "BUILTIN"):
         return L_ATOM if k != "CALL" else L_POSTFIX
     if k in BINARY:
@@ -74,12 +76,14 @@ def render(t, full):
 
     def sub(c, need):
         s = render(c, full)
-        if c[0] in ("ID", "INT", "DBL", "BOOL"):
+        if c[0] in ("ID", "INT", "DBL", "BOOL") or (c[0] == "INTMIN" and not need and not full):
             return s
         return _par(s) if (full or need) else s
 
     if k == "PAREN":
         return _par(render(t[1], full))
+    if k == "INTMIN":
+        return "-2147483648"
     if k == "ID":
         return t[1]
     if k == "INT":
@@ -127,6 +131,8 @@ def expected(t):
     k = t[0]
     if k == "PAREN":
         return expected(t[1])
+    if k == "INTMIN":
+        return "(CONSTANT:INT -2147483648)"
     if k == "ID":
         return "(IDENTIFIER %s)" % t[1]
     if k == "INT":
@@ -197,7 +203,7 @@ def constructors():
 
 
 REC_VALUED = [("ID", "rec"), ("ARRAY", ID("recs"), ("INT", 1)), ("CALL", "mk")]
-LEAVES_EXTRA = [("INT", 1), ("INT", 0), ("DBL", "1.5", "0x1.8p+0"), ("BOOL", 1), ID("x"), ID("p"), ID("z")]
+LEAVES_EXTRA = [("INT", 1), ("INT", 0), ("DBL", "1.5", "0x1.8p+0"), ("BOOL", 1), ID("x"), ID("p"), ID("z"), ("INTMIN",)]
 
 
 def depth1():
